@@ -47,11 +47,23 @@ def check_copy(ctx, path_in, path_out, task, strip_logs=False, strip_basins=Fals
     diffs = []
     with h5py.File(path_in, "r") as hi, h5py.File(path_out, "r") as ho:
         ign = ()
+        if task in ("compress", "condense"):
+            # these tasks finish with the writer, which documents the version branding
+            ign = ("setup:software version",)
+            vi = hi.attrs.get("setup:software version", "")
+            vo = ho.attrs.get("setup:software version", "")
+            vi = vi.decode() if isinstance(vi, bytes) else str(vi)
+            vo = vo.decode() if isinstance(vo, bytes) else str(vo)
+            if not (vo == vi or (vo.startswith(vi) and vo[len(vi):].lstrip(" |").startswith(
+                    "dclab "))):
+                diffs.append({"where": "/", "attr": "setup:software version", "in": vi,
+                              "out": vo})
         diffs += h5equiv.compare_attrs(dict(hi.attrs), dict(ho.attrs), "/", ignore=ign)
         # ------------------------------------------------------------ events
         ei = hi["events"] if "events" in hi else {}
         eo = ho["events"] if "events" in ho else {}
         skip = set()
+        defective = set()
         for f in ei:
             if not dfn.feature_exists(f):
                 skip.add(f)        # not a feature for dclab: not judged
@@ -63,13 +75,23 @@ def check_copy(ctx, path_in, path_out, task, strip_logs=False, strip_basins=Fals
                 ctx.count("skipped_empty_dataset")
             elif strip_basins and BASINMAP.match(f):
                 skip.add(f)
+            else:
+                # documented: features that dclab marks as defective for the software that
+                # wrote the input are not copied (they are recomputed on demand)
+                from dclab.rtdc_dataset.fmt_hdf5 import feat_defect
+                chk = feat_defect.DEFECTIVE_FEATURES.get(f)
+                if chk is not None and chk(hi):
+                    skip.add(f)
+                    defective.add(f)
+                    ctx.count("skipped_defective_feature_in_input")
         if ei:
             d, extra = h5equiv.compare_group(ei, eo, "/events", skip=skip,
                                              allow_extra_attrs=_extra_attrs)
             diffs += d
             if not scalar_only:
                 for e in extra:
-                    diffs.append({"where": f"/events/{e}", "extra_in_output": True})
+                    if e not in defective:
+                        diffs.append({"where": f"/events/{e}", "extra_in_output": True})
         # -------------------------------------------------------------- logs
         li = hi["logs"] if "logs" in hi else {}
         lo = ho["logs"] if "logs" in ho else {}
@@ -407,6 +429,9 @@ def check_join(ctx, paths_in, path_out, witness=None):
                         ctx.count("skipped_unrepresentable_unsigned_feature")
                         continue
                     exp = exp.astype(got.dtype)
+                elif got.dtype.kind == "f" and exp.dtype.kind == "f" and got.dtype != exp.dtype:
+                    with np.errstate(all="ignore"):
+                        exp = exp.astype(got.dtype)    # stored in the type of the first input
                 if f == "time":
                     ok = got.shape == exp.shape and np.allclose(got, exp, rtol=0, atol=1e-6,
                                                                 equal_nan=True)
